@@ -3,6 +3,7 @@
 package mimetype
 
 import (
+	"bytes"
 	"fmt"
 	"sort"
 	"testing"
@@ -61,10 +62,21 @@ func c17Check(c c17Case) vfResult {
 	}
 	firstNT := -1
 	var firstChain string
-	for _, L := range limits {
+	for li, L := range limits {
 		m := vfDetectAt(x, uint32(L))
 		nt := c17NonText(m)
 		r.N++
+		// the reader entry point must tell the same story (every 5th limit, and the boundaries)
+		if li%5 == 0 || L == 0 || L >= n {
+			SetLimit(uint32(L))
+			mr, err := DetectReader(bytes.NewReader(x))
+			SetLimit(defaultLimit)
+			r.N++
+			if err != nil || c17NonText(mr) != nt {
+				r.Err = fmt.Errorf("at limit %d Detect says %s but DetectReader says %s (err %v); x=%s", L, vfChainStr(m), vfChainStr(mr), err, vfQ(x))
+				return r
+			}
+		}
 		if nt && firstNT < 0 {
 			firstNT = L
 			firstChain = vfChainStr(m)
@@ -90,9 +102,14 @@ func c17Check(c c17Case) vfResult {
 	return r
 }
 
+// literals that signature checks look for anywhere in (a window of) the header, including the
+// negative ones (gpkg names exclude tar, Access headers exclude ttf)
+var c17Markers = []string{"/gpkg-1\x00", "x/gpkg-1\x00", "Standard Jet DB", "Standard ACE DB", "BOOKMOBI", "DICM", "acTL", "GPAT", "GIMP", "<svg", "ftyp", "PK\x03\x04", "META-INF/MANIFEST.MF", "word/", "\x1e", "LP",
+	"P\x00o\x00w\x00e\x00r\x00P\x00o\x00i\x00n\x00t\x00 D\x00o\x00c\x00u\x00m\x00e\x00n\x00t", "W\x00k\x00s\x00S\x00S\x00W\x00o\x00r\x00k\x00B\x00o\x00o\x00k", "debian-binary", "WEBP", "4500", "mimetypeapplication/epub+zip"}
+
 func c17Gen(t *rapid.T) c17Case {
 	var x []byte
-	switch rapid.IntRange(0, 7).Draw(t, "k") {
+	switch rapid.IntRange(0, 8).Draw(t, "k") {
 	case 0:
 		x = vfGenSeed(t)
 	case 1, 2:
@@ -106,6 +123,26 @@ func c17Gen(t *rapid.T) c17Case {
 		x = c03Ole(t)
 	case 6:
 		x = c03Zip(t)
+	case 7: // a recognised binary with markers of OTHER signatures written somewhere behind its own
+		switch rapid.IntRange(0, 3).Draw(t, "base") {
+		case 0:
+			x, _ = c18GenArchive(t)
+		case 1:
+			x = c03Zip(t)
+		case 2:
+			x = c03Ole(t)
+		default:
+			x = append(vfGenSeed(t), make([]byte, rapid.IntRange(0, 700).Draw(t, "pad"))...)
+		}
+		for i, k := 0, rapid.IntRange(1, 3).Draw(t, "nmark"); i < k && len(x) > 8; i++ {
+			mk := []byte(rapid.SampledFrom(c17Markers).Draw(t, "marker"))
+			p := rapid.IntRange(4, len(x)).Draw(t, "mpos")
+			if rapid.Bool().Draw(t, "ins") {
+				x = append(x[:p:p], append(mk, x[p:]...)...)
+			} else {
+				x = append(x[:p:p], append(mk, x[min(len(x), p+len(mk)):]...)...)
+			}
+		}
 	default: // a seed prefix spliced before another seed (signatures at offsets)
 		a, b := vfGenSeed(t), vfGenSeed(t)
 		p := rapid.IntRange(0, min(len(a), 140)).Draw(t, "p")
